@@ -17,7 +17,8 @@ CORNER = {(65535, 65535), (65534, 65535)}
 def run(ctx):
     q = ctx.quick
     if ctx.replay:
-        raise lib.ToolError("re-run the check: histories are regenerated from the seed")
+        ctx.regenerate()
+        q = ctx.quick
     mc = lib.tlc("image/KittyHandler", "KittyHandler.cfg", workers=4, coverage=True, check=False, timeout=1200)
     if mc.error:
         lib.log(mc.out[-3000:])
